@@ -6,6 +6,7 @@ import J5V.Codec.QueryProofs
 import J5V.Codec.ExactProofs
 import J5V.Codec.StoredProofs
 import J5V.Codec.StoredFlat
+import J5V.Codec.FlatItems
 import J5V.Generated.CodecFacts
 /-!
 # C03 — decoding is exact or rejected
@@ -389,6 +390,58 @@ theorem C03_exact_stored_flat_partial (c : Cfg) (hs : c.env.flat = true) (root :
     (m : Fields) (h : decRootTree c root t = .ok m) : StoredRoot c root m t :=
   stored_root c (apart_of_flat c.env hs) root t m h
 
+/-- **"exact or rejected", packaged as the dichotomy the property names** (round 4): for every
+document — every tree the JSON reader can deliver, malformed or not — over an environment with
+unrelated leaf paths (`Env.apart`; every `Env.flat` environment: `apart_of_flat`) the decoder
+EITHER returns an error OR returns a message that is exactly what the document says
+(`StoredRoot`: every non-null member at every depth stored at its property's path with a value its
+token denotes, nothing else set). There is no third outcome (no panic: `decRootTree_np`, C06), and
+in particular no successful decode that drops, invents or alters a member. -/
+theorem C03_exact_or_rejected_partial (c : Cfg) (hE : c.env.apart) (hc : c.env.itemsOk = true)
+    (root : String) (t : PTree) :
+    (∃ e, decRootTree c root t = .err e) ∨
+      (∃ m, decRootTree c root t = .ok m ∧ StoredRoot c root m t) := by
+  cases h : decRootTree c root t with
+  | ok m => exact Or.inr ⟨m, rfl, stored_root c hE root t m h⟩
+  | err e => exact Or.inl ⟨e, rfl⟩
+  | panic w => exact absurd h (decRootTree_np c hc root t w)
+
+/-- the same on the bytes `Codec.JSONToProto` reads, for every byte string and every flat
+environment (`Env.flat` alone: it implies both `Env.apart` and `Env.itemsOk`) -/
+theorem C03_exact_or_rejected_bytes_partial (c : Cfg) (hs : c.env.flat = true)
+    (root : String) (bs : Bytes) :
+    (∃ e, decodeBytes c root bs = .err e) ∨
+      (∃ m, decodeBytes c root bs = .ok m ∧ StoredRoot c root m (readDoc bs)) :=
+  C03_exact_or_rejected_partial c (apart_of_flat c.env hs) (itemsOk_of_flat c.env hs) root (readDoc bs)
+
+/-- the class C01 / C03 are proved for satisfies the schema condition of C06 (array / map items are
+never arrays or maps): for flat environments "never panics" needs no further hypothesis -/
+theorem C03_flat_itemsOk (env : Env) (hs : env.flat = true) : env.itemsOk = true :=
+  itemsOk_of_flat env hs
+
+/-- **the two relational halves fit together** (round 4): whatever document `SpellsRoot` accepts as a
+spelling of a representable message `m` is, read the other way round, a document that says exactly
+`m` (`StoredRoot`) — the forward relation (`C03_variations`) is contained in the backward one
+(`C03_exact_stored_flat_partial`) — and a document spells **at most one** representable message. -/
+theorem C03_spelled_is_stored (c : Cfg) (hs : c.env.flat = true)
+    (hA : c.protoToAny = false ∨ c.env.noJ5Any = true) (root : String) (m : Fields) (t : PTree)
+    (hok : valOk c.env c.O (.object root) (.msg m) = true ∨
+      valOk c.env c.O (.oneof root) (.msg m) = true)
+    (h : SpellsRoot c root m t) : StoredRoot c root m t :=
+  stored_root c (apart_of_flat c.env hs) root t m (spells_root_decodes c hs hA root m t hok h)
+
+theorem C03_spelling_unique (c : Cfg) (hs : c.env.flat = true)
+    (hA : c.protoToAny = false ∨ c.env.noJ5Any = true) (root : String) (m m' : Fields) (t : PTree)
+    (hok : valOk c.env c.O (.object root) (.msg m) = true ∨
+      valOk c.env c.O (.oneof root) (.msg m) = true)
+    (hok' : valOk c.env c.O (.object root) (.msg m') = true ∨
+      valOk c.env c.O (.oneof root) (.msg m') = true)
+    (h : SpellsRoot c root m t) (h' : SpellsRoot c root m' t) : m = m' := by
+  have h1 := spells_root_decodes c hs hA root m t hok h
+  have h2 := spells_root_decodes c hs hA root m' t hok' h'
+  rw [h1] at h2
+  cases h2; rfl
+
 /-- how to read `StoredRoot` (top level of an object root): every non-null member `k: v` of the
 document whose property has a proto path is stored at that path as a value `vv` the subtree `v` is
 stored as (`StoredV`: for a scalar, `scalarSpells` — exactly a value the token denotes; recursively
@@ -641,6 +694,9 @@ example : PathsApart mProps := by
     first | exact absurd rfl hne | decide
 
 example : faultEnv.flat = true := by decide
+/-- hypotheses of `C03_exact_or_rejected_partial` / `_bytes_partial` (an environment with a wrapper
+oneof, scalars, an enum …): flat, hence apart, and `itemsOk` -/
+example : faultEnv.flat = true ∧ faultEnv.itemsOk = true := by decide
 example : valOk faultEnv toyOracle (.object "t.M")
     (.msg [(1, .str (ascii "x")), (3, .msg [(2, .int 7)]), (4, .list [.int 1, .int 2])]) = true := by decide
 
@@ -744,6 +800,130 @@ theorem C03_src_token_arms :
        ("Field_Timestamp", "string"), ("Field_Timestamp", "default"),
        ("Field_Decimal", "string"), ("Field_Decimal", "json.Number"), ("Field_Decimal", "default"),
        ("Field_Date", "string"), ("Field_Date", "default")] := by decide
+
+/-- **`decodeOneofInner` ↔ `decOneofMembers` + `oneofPost`** (round 4). The facts list every `if` of
+the Go function in source order (callback included) with its exact condition and whether its body
+returns an error / nil. Mirrored one by one: the reserved key `"!type"` (must be a string token, sets
+`constrainType`, is not counted: model `if k = ascii "!type"`), unknown key → error (`findProp = none`),
+`foundKeys` appended once per known key *before* the value is decoded (`found ++ [k]`), then the
+post-checks in this order: no key (`len(foundKeys) == 0`: nothing, or `NewValue` of the `"!type"` arm,
+error when it does not exist), **more than one key → error** (`len(foundKeys) > 1`, model: the last arm
+of `oneofPost`), `"!type"` present and different from the key → error. Any edit of a condition, of the
+order, or of an outcome changes the list. -/
+theorem C03_src_oneof_key_handling :
+    decodeOneofInnerIfs =
+      [("err := dec.jsonObjectBody(func{…}); err != nil", "err"),
+       ("keyTokenStr == \"!type\"", "nil"),
+       ("err != nil", "err"),
+       ("!ok", "err"),
+       ("err != nil", "err"),
+       ("err := dec.decodeValue(matchedProperty); err != nil", "err"),
+       ("len(foundKeys) == 0", "nil"),
+       ("constrainType == nil", "nil"),
+       ("err != nil", "err"),
+       ("len(foundKeys) > 1", "err"),
+       ("constrainType != nil && foundKeys[0] != *constrainType", "err")] ∧
+    decodeOneofPropertyIfs =
+      [("err != nil", "err"), ("wasNull", "nil"), ("err != nil", "err"), ("!ok", "err"),
+       ("err != nil", "err")] ∧
+    jsonObjectBodyIfs =
+      [("err != nil", "err"), ("!ok", "err"), ("err := callback(keyTokenStr); err != nil", "err")] := by
+  decide
+
+/-- **`decodeAny` ↔ `decAnyMembers` / `finishAnyProp`** (round 4): `null` → nothing stored; keys:
+`"!type"` (string token), anything other than `"value"` → error (6ebe64c), a second `"value"` →
+error; after the loop a missing `"!type"` or a missing `"value"` → error; with `WithProtoToAny` and a
+resolver: depth check first, resolver miss → error, nested decode failure → error. -/
+theorem C03_src_any_key_handling :
+    decodeAnyIfs =
+      [("err != nil", "err"), ("wasNull", "nil"), ("err != nil", "err"), ("!ok", "err"),
+       ("err := dec.jsonObjectBody(func{…}); err != nil", "err"),
+       ("keyTokenStr == \"!type\"", "nil"),
+       ("err != nil", "err"),
+       ("!ok", "err"),
+       ("keyTokenStr != \"value\"", "err"),
+       ("valueBytes != nil", "err"),
+       ("err != nil", "err"),
+       ("constrainType == nil", "err"),
+       ("valueBytes == nil", "err"),
+       ("dec.codec.addProtoToAny && dec.codec.resolver != nil", "none"),
+       ("dec.anyDepth >= maxAnyDepth", "err"),
+       ("err != nil", "err"),
+       ("err == protoregistry.NotFound", "err"),
+       ("err := dec.codec.decodeNested(valueBytes, msg, dec.anyDepth+1); err != nil", "err"),
+       ("err != nil", "err"),
+       ("err != nil", "err")] := by
+  decide
+
+/-- **query.go ↔ `Codec/Query.lean`** (round 4): the key is split at `"."` (`splitDot`, byte `0x2E`);
+`propertyAtPath` enters an existing field (`prop.IsSet()`) or creates it and requires a container
+(`qEnter`); `decodeQuery`: an empty value list is an error (036c15b), a scalar / container with more
+than one value is an error, a container value must start with `{` after `TrimSpace`; `queryGoValue`
+turns exactly the texts `true` / `false` of a bool field (or array of bool) into booleans (ebfcdb5)
+and leaves everything else a string. -/
+theorem C03_src_query_shape :
+    querySplitArgs = ["\".\""] ∧
+    (splitDot (ascii "a.b") = [ascii "a", ascii "b"]) ∧
+    queryBoolCases = [("\"true\"", "true"), ("\"false\"", "false")] ∧
+    queryGoValueIfs =
+      [("arrayType, ok := fieldType.(*schema_j5pb.Field_Array); ok && arrayType.Array != nil && arrayType.Array.Items != nil", "none"),
+       ("_, ok := fieldType.(*schema_j5pb.Field_Bool); ok", "none")] ∧
+    propertyAtPathIfs =
+      [("err != nil", "err"), ("prop.IsSet()", "none"), ("err != nil", "err"), ("err != nil", "err"),
+       ("propSet, ok := field.AsContainer(); ok", "none"), ("else of prop.IsSet()", "none")] ∧
+    decodeQueryIfs =
+      [("err != nil", "err"),
+       ("len(values) == 0", "err"),
+       ("err != nil", "err"),
+       ("err != nil", "err"),
+       ("scalar, ok := field.AsScalar(); ok", "none"),
+       ("len(values) > 1", "err"),
+       ("err != nil", "err"),
+       ("array, ok := field.AsArrayOfScalar(); ok", "none"),
+       ("err != nil", "err"),
+       ("container, ok := field.AsContainer(); ok", "none"),
+       ("len(values) > 1", "err"),
+       ("!strings.HasPrefix(val, \"{\")", "err"),
+       ("err != nil", "err")] := by
+  decide
+
+/-- **the per-kind value decoders ↔ `decScalarProp` / `decEnumProp` / the `.object` / `.map` / `.array`
+arms of `decProp`, `decElems`, `decMapMembers`** (round 4). Every one starts the same way, and the
+model mirrors exactly this order: read a token (error → error), **`null` → nothing stored, before
+`CreateField`** (so an explicit null never touches the message or a proto oneof), `CreateField`
+(error → error: "already set" / proto-oneof member), then the kind-specific part: a delimiter where a
+scalar is expected → error; a non-string where an enum name is expected → error; containers need
+their opening delimiter (`expectDelimOrNull`: anything else → error) and their closing one
+(`expectDelim`). Map values / array elements: a delimiter for a scalar → error, a non-string for an
+enum → error; objects and oneofs recurse. -/
+theorem C03_src_value_shapes :
+    decodeScalarIfs =
+      [("err != nil", "err"), ("token == nil", "nil"), ("err != nil", "err"), ("!ok", "err"),
+       ("_, ok := token.(json.Delim); ok", "err")] ∧
+    decodeEnumIfs =
+      [("err != nil", "err"), ("token == nil", "nil"), ("err != nil", "err"), ("!ok", "err"), ("!ok", "err")] ∧
+    decodeObjectPropertyIfs =
+      [("err != nil", "err"), ("wasNull", "nil"), ("err != nil", "err"), ("!ok", "err"),
+       ("err := dec.decodeObjectInner(object); err != nil", "err")] ∧
+    decodeObjectInnerIfs =
+      [("err != nil", "err"), ("err := dec.decodeValue(prop); err != nil", "err"), ("err != nil", "err")] ∧
+    decodeMapPropertyIfs =
+      [("err != nil", "err"), ("wasNull", "nil"), ("err != nil", "err"), ("!ok", "err"), ("err != nil", "err")] ∧
+    decodeMapFieldIfs =
+      [("err != nil", "err"), ("_, ok := tok.(json.Delim); ok", "err"), ("err != nil", "err"), ("!ok", "err"),
+       ("err != nil", "err"), ("err != nil", "err")] ∧
+    decodeArrayPropertyIfs =
+      [("err != nil", "err"), ("wasNull", "nil"), ("err != nil", "err"), ("!ok", "err"), ("err != nil", "err")] ∧
+    decodeArrayFieldValueIfs =
+      [("field, ok := field.AsArrayOfScalar(); ok", "err"), ("err != nil", "err"),
+       ("_, ok := tok.(json.Delim); ok", "err"), ("field, ok := field.AsArrayOfObject(); ok", "err"),
+       ("field, ok := field.AsArrayOfOneof(); ok", "err"), ("err != nil", "err")] ∧
+    expectDelimOrNullIfs =
+      [("err != nil", "err"), ("tok == nil", "nil"), ("tok != json.Delim(delim)", "err")] ∧
+    expectDelimIfs = [("err != nil", "err"), ("tok != json.Delim(delim)", "err")] ∧
+    popValueAsBytesIfs =
+      [("err := dec.jd.Decode(raw); err != nil", "err"), ("err := json.Compact(buf, *raw); err != nil", "err")] := by
+  decide
 
 theorem C03_src_extractor_ok : codecExtractorOk = true := by decide
 
